@@ -59,7 +59,8 @@ Ok == <<>>
 SignApplies(p) == p.op # "null" /\ IsBoolFormula(p) /\ ~HasOp(p, {"iff", "xor"})
 \* explain(): "violated" is negative robustness whatever stands in verdict position (-(p and q), x - 3); an alternative trace
 \* counts as satisfying only when its robustness is strictly positive (SatisfiedAt0)
-ExplSignApplies(p) == p.op # "null" /\ ~HasOp(p, {"iff", "xor"})
+\* (with iff / xor, whose robustness is never positive, "not violated" is robustness >= 0: Explain!SatisfiedAt0)
+ExplSignApplies(p) == p.op # "null"
 Dist(a, b) == IF a >= b THEN a - b ELSE b - a
 
 \* result of applying one event: [m |-> new object record, o |-> new observation record,
@@ -228,7 +229,7 @@ ApplyExplain(m, o0, e, step) ==
       o == IF f0 = Ok /\ m.phase = "offline" /\ ExplSignApplies(m.phi) /\ rho1 # Undef
            THEN ExplainModel(m, o0, e) ELSE o0 IN
   \* "violated at time 0" is rtamt's own notion: negative robustness (explain() does nothing otherwise); robustness 0
-  \* is neither (skipped); iff / xor are outside the fragment in which the sign of the robustness decides satisfaction
+  \* is neither (skipped)
   IF f0 # Ok \/ m.phase # "offline" \/ ~ExplSignApplies(m.phi) \/ rho1 = Undef \/ rho1 = 0 \/ HasUndef(m.offOut)
   THEN R(m, o, f0, 0)
   ELSE IF rho1 > 0 THEN
